@@ -242,8 +242,23 @@ func TestMux(t *testing.T) {
 				c.closed = true
 			}()
 		}
-		wg.Wait()
-		o := map[string]any{"ev": "Mux", "id": fmt.Sprintf("free/%d", r), "n": nc, "chunks": chunks, "err": src.term == "ERR", "deadlock": false, "panic": "", "skipped": 0}
+		// watchdog: consumers that are still blocked after ten seconds (of wall time; a run takes microseconds) wait forever
+		finished := make(chan struct{})
+		go func() { wg.Wait(); close(finished) }()
+		hung := false
+		select {
+		case <-finished:
+		case <-time.After(10 * time.Second):
+			hung = true
+		}
+		o := map[string]any{"ev": "Mux", "id": fmt.Sprintf("free/%d", r), "n": nc, "chunks": chunks, "err": src.term == "ERR", "deadlock": hung, "panic": "", "skipped": 0}
+		if hung {
+			// the blocked goroutines may still be writing to the consumers: report without their details
+			o["got"], o["closed"], o["srcClosed"] = map[string][]string{}, map[string]bool{}, 0
+			w.Emit(o)
+			n++
+			break
+		}
 		fill(o, consumers, src)
 		w.Emit(o)
 		n++
